@@ -10,6 +10,7 @@
    run visits fewer than 2^64 loop heads. *)
 From Coq Require Import NArith List Bool.
 From SV Require Import C07.Model C07.Spec C07.Proofs C07.ProofsCancel C07.ProofsLimit C07.ProofsDet C07.ProofsTerm C07.ProofsDepth.
+From SV Require Import C07.ModelDyn C07.SpecDyn C07.ProofsDyn C07.ProofsDynTerm.
 Import ListNotations.
 Open Scope N_scope.
 
@@ -232,3 +233,251 @@ Example hook_premises_hold :
   onmax t = Some (cancel_hook 4) /\ (forall c, cancel_hook 4 c <> None) /\
   maxSteps t <= (steps t + 1) mod two64 /\ snd (loop_head t) = Some 4.
 Proof. repeat split; try (intros [x|]; discriminate); vm_compute; congruence. Qed.
+
+(* ======================================================================
+   The limit changes, and steps are charged, WHILE the program runs
+   (C07/ModelDyn.v).  Host code inside a built-in -- it runs on the
+   interpreter's goroutine and holds the *Thread -- may at any moment call
+   thread.SetMaxExecutionSteps(n) (a plain store `thread.maxSteps = n`, also
+   for n = 0: the rewrite 0 -> MaxUint64 happens once, in Call, while
+   thread.stack == nil, never in mid-run) and add to the exported counter
+   (thread.Steps += k, uint64 wrap-around explicit: DCharge).  The loop head is
+   Model.loop_head, unchanged: the dynamic machine runs Model.mstep for every
+   step that is not one of the two new host actions.
+
+   Vocabulary: `dndisp tr` / `dnheads tr` = instructions dispatched / loop
+   heads reached in a dynamic trace, `charged tr` = sum of the charges,
+   `installed m0 tr` = the limit most recently installed (the last
+   SetMaxExecutionSteps in tr; m0 if there is none), `setmax_le n tr` = every
+   SetMaxExecutionSteps in tr installs a limit <= n, `no_dyn tr` = tr contains
+   neither of the new actions, `hook_ok t` = OnMaxSteps is nil (default: Cancel
+   "too many steps") or a client hook that leaves the thread cancelled
+   (cf. hook_enforced).
+   ====================================================================== *)
+Section DynStatements.
+  Variable St : Type.
+  Variable dispatch : St -> action St.
+  Variable dhost : St -> option err -> dhaction St.
+  Variable recursion : bool.
+  Variable entry_err : St -> bool.
+  Notation drun := (drun St dispatch dhost recursion entry_err).
+  Notation dtick_step := (dtick_step St dispatch dhost recursion entry_err).
+  Notation dstart := (dstart St recursion entry_err).
+
+  (* In every run -- any program, any host code using Cancel / Uncancel /
+     SetMaxExecutionSteps / Steps += k in any order, any schedule of the other
+     goroutines -- and at every moment s1 of it:
+     (a) the thread's limit is the value most recently installed;
+     (b) if the next tick dispatches an instruction, then it is the machine's own
+         tick, it dispatches exactly one, and Steps < that limit at that moment
+         (the code's test is `Steps >= maxSteps` => no dispatch); no assumption
+         about wrap-around is needed for this;
+     (c) from s1 on, as long as no limit above n is installed (n any bound on the
+         current limit) and the 64-bit counter does not wrap: the counter is what
+         it was plus the heads plus the charges, and at most
+         [pending instruction] + max(0, n - 1 - Steps) more instructions are ever
+         dispatched.  With n = the current limit and Steps >= n (a host action has
+         just lowered the limit to or below the count, or charged past it) that
+         is 0: the next loop head cancels, in whatever frame it is. *)
+  Definition budget_respected_dynamic_stmt : Prop :=
+    forall t s sched s1 tr1,
+      hook_ok t ->
+      drun (dstart t s) sched = (s1, tr1) ->
+      maxSteps (sthread St s1) = installed (maxSteps (call_init t)) tr1 /\
+      (forall k s2 ev, dtick_step s1 k = (s2, ev) -> dndisp ev <> 0 ->
+         k = TRun /\ dndisp ev = 1 /\ steps (sthread St s1) < installed (maxSteps (call_init t)) tr1) /\
+      (forall n sched2 s2 tr2,
+         installed (maxSteps (call_init t)) tr1 <= n ->
+         drun s1 sched2 = (s2, tr2) -> setmax_le n tr2 = true ->
+         steps (sthread St s1) + dnheads tr2 + charged tr2 < two64 ->
+         steps (sthread St s2) = steps (sthread St s1) + dnheads tr2 + charged tr2 /\
+         dndisp tr2 <= pend St s1 + (n - 1 - steps (sthread St s1))).
+
+  (* A run of the dynamic machine in which neither of the new actions occurs IS
+     the run of the static machine of Model.v (same final state, same events) on
+     the same host code: the theorems above this section apply to it unchanged. *)
+  Definition dynamic_reduces_to_static_stmt : Prop :=
+    forall sched s s' tr,
+      drun s sched = (s', tr) -> no_dyn tr = true ->
+      run St dispatch (erase St dhost) recursion entry_err s sched = (s', strip tr) /\
+      tr = map DE (strip tr).
+
+  (* A built-in -- under any stack of active frames `rest`, at any moment of any
+     run -- calls SetMaxExecutionSteps(n).  From that call on (tr2 starts with
+     it), unless a later action installs a limit above n, at most
+     max(0, n - 1 - Steps) further instructions are dispatched, Steps being the
+     counter at the moment of the call: the new limit is the limit at the very
+     next loop head of every frame.  (A limit cached per frame violates this.) *)
+  Definition limit_change_takes_effect_at_next_head_stmt : Prop :=
+    forall t s sched c tr1 rest n x,
+      hook_ok t ->
+      drun (dstart t s) sched = (Running c, tr1) ->
+      stk c = FHost :: rest -> dhost (st c) (perr c) = DSetMax n x ->
+      forall sched2 s2 tr2,
+        drun (Running c) (TRun :: sched2) = (s2, tr2) ->
+        setmax_le n tr2 = true ->
+        steps (th c) + dnheads tr2 + charged tr2 < two64 ->
+        dndisp tr2 <= n - 1 - steps (th c).
+
+  (* The same for a charge: after `thread.Steps += j` in a built-in at most
+     max(0, maxSteps - 1 - (Steps + j)) further instructions are dispatched -- none
+     if the counter has jumped to or past the limit, whether or not it ever
+     equals it (default behaviour and cancelling hook alike). *)
+  Definition charge_takes_effect_at_next_head_stmt : Prop :=
+    forall t s sched c tr1 rest j x,
+      hook_ok t ->
+      drun (dstart t s) sched = (Running c, tr1) ->
+      stk c = FHost :: rest -> dhost (st c) (perr c) = DCharge j x ->
+      forall sched2 s2 tr2,
+        drun (Running c) (TRun :: sched2) = (s2, tr2) ->
+        setmax_le (maxSteps (th c)) tr2 = true ->
+        steps (th c) + dnheads tr2 + charged tr2 < two64 ->
+        dndisp tr2 <= maxSteps (th c) - 1 - (steps (th c) + j).
+
+  (* Every execution of the dynamic machine terminates (no infinite sequence of
+     machine steps, whatever other goroutines do to cancelReason in between; the
+     64-bit counter does not wrap: part of dstep_rel), provided
+       - built-ins terminate: a measure hm on host code that every host step,
+         SetMaxExecutionSteps and charges included, decreases (dhost_terminates);
+       - the limit is not raised for ever (raises_limited): there are a bound B and a
+         credit rc : St -> nat such that no step of the program or of host code
+         increases rc and every SetMaxExecutionSteps(n) either has n <= B or
+         strictly decreases rc.  Instances: rc = 0 -- every limit installed in
+         mid-run is <= B, however often it is changed; B = 0 -- at most rc(initial
+         state) calls of SetMaxExecutionSteps in the whole run, with any values.
+     (Without such a hypothesis the statement is false: `while True: b()` with b
+     raising the limit by 10 at every call runs for ever.) *)
+  Definition terminates_under_dynamic_budget_stmt : Prop :=
+    forall (hm rc : St -> nat) (B : N),
+      dhost_terminates St dhost hm -> raises_limited St dispatch dhost rc B ->
+      (forall c, dgood St c -> Acc (dstep_rel St dispatch dhost recursion entry_err) c) /\
+      (forall f : nat -> config St, dgood St (f O) ->
+         (forall i, dstep_rel St dispatch dhost recursion entry_err (f (S i)) (f i)) -> False).
+End DynStatements.
+
+Theorem budget_respected_dynamic : forall St dispatch dhost recursion entry_err,
+  budget_respected_dynamic_stmt St dispatch dhost recursion entry_err.
+Proof. exact budget_dynamic_lemma. Qed.
+
+Theorem dynamic_reduces_to_static : forall St dispatch dhost recursion entry_err,
+  dynamic_reduces_to_static_stmt St dispatch dhost recursion entry_err.
+Proof. exact reduces_to_static_lemma. Qed.
+
+(* for host code that never uses the new actions (`lift_host host`) the two
+   machines are the same function ... *)
+Theorem dynamic_reduces_to_static_host :
+  forall St dispatch (host : St -> option err -> haction St) recursion entry_err sched s,
+    drun St dispatch (lift_host host) recursion entry_err s sched =
+    (let (s', tr) := run St dispatch host recursion entry_err s sched in (s', map DE tr)).
+Proof. exact lifted_is_static. Qed.
+
+(* ... so the theorems about Model.v are instances; e.g. budget_respected_fresh read
+   on the dynamic machine *)
+Theorem static_budget_is_an_instance :
+  forall St dispatch (host : St -> option err -> haction St) recursion entry_err n s sched s' tr,
+    1 <= n ->
+    drun St dispatch (lift_host host) recursion entry_err
+         (dstart St recursion entry_err (set_max_execution_steps new_thread n) s) sched = (s', tr) ->
+    dnheads tr < two64 ->
+    no_dyn tr = true /\ dndisp tr < n.
+Proof. exact static_budget_instance. Qed.
+
+Theorem limit_change_takes_effect_at_next_head : forall St dispatch dhost recursion entry_err,
+  limit_change_takes_effect_at_next_head_stmt St dispatch dhost recursion entry_err.
+Proof. exact setmax_next_head_lemma. Qed.
+
+Theorem charge_takes_effect_at_next_head : forall St dispatch dhost recursion entry_err,
+  charge_takes_effect_at_next_head_stmt St dispatch dhost recursion entry_err.
+Proof. exact charge_next_head_lemma. Qed.
+
+Theorem terminates_under_dynamic_budget : forall St dispatch dhost recursion entry_err,
+  terminates_under_dynamic_budget_stmt St dispatch dhost recursion entry_err.
+Proof. exact dterm_both. Qed.
+
+(* ---- non-vacuity ---- *)
+
+(* the scripted programs of ModelDyn.v satisfy both hypotheses of
+   terminates_under_dynamic_budget (credit = the SetMaxExecutionSteps calls the
+   script still contains, B = 0), and dgood holds for a started thread *)
+Example script_hosts_terminate : dhost_terminates dstate d_host d_measure.
+Proof. exact script_dhost_terminates. Qed.
+Example script_raises_are_limited : raises_limited dstate d_dispatch d_host d_credit 0.
+Proof. exact script_raises_limited. Qed.
+Example dgood_holds :
+  dgood dstate (mkConfig (mkThread 3 40 None true (Some (cancel_hook 4))) [FHost; FStar Head]
+                         (mkD [DPlain 50] (Some [DOCharge 1000])) None).
+Proof. repeat split. intros [x|]; discriminate. Qed.
+
+(* A built-in lowers the limit BELOW the current count: limit 100, five ordinary
+   instructions, then b() -- entered at Steps = 6 under an active top-level frame --
+   calls SetMaxExecutionSteps(3).  The premises of
+   limit_change_takes_effect_at_next_head hold (n = 3, Steps = 6), the bound is
+   max(0, 3 - 1 - 6) = 0, and indeed nothing more is dispatched: the next head
+   (Steps = 7) cancels with "too many steps". *)
+Example lowered_below_count :
+  let prog := [DPlain 5; DBuiltin [DOSetMax 3]; DPlain 10; DBuiltin []] in
+  let t := set_max_execution_steps new_thread 100 in
+  let r1 := d_run (d_start t prog) (repeat TRun 12) in
+  let r2 := d_run (fst r1) (TRun :: repeat TRun 20) in
+  hook_ok t /\
+  (exists c x, fst r1 = Running c /\ stk c = [FHost; FStar Head] /\ steps (th c) = 6 /\ maxSteps (th c) = 100 /\
+               d_host (st c) (perr c) = DSetMax 3 x) /\
+  setmax_le 3 (snd r2) = true /\ steps (sthread dstate (fst r1)) + dnheads (snd r2) + charged (snd r2) < two64 /\
+  dndisp (snd r1) = 6 /\ dndisp (snd r2) = 0 /\ 3 - 1 - 6 = 0 /\
+  fst r2 = Finished (mkThread 7 3 (Some too_many_steps) true None) (mkD [DPlain 10; DBuiltin []] None)
+                    (Some (ECancel too_many_steps)).
+Proof.
+  cbv zeta. split; [exact I|]. split.
+  - eexists. eexists. vm_compute. repeat split.
+  - vm_compute. repeat split.
+Qed.
+
+(* A charge of 1000 under limit 40 with a cancelling OnMaxSteps hook (reason 4):
+   the counter jumps from 3 to 1003 and never equals 40; the premises of
+   charge_takes_effect_at_next_head hold, the bound is 0, the next head stops the run
+   with the hook's reason. *)
+Example charge_of_1000 :
+  let prog := [DPlain 2; DBuiltin [DOCharge 1000]; DPlain 50; DBuiltin []] in
+  let t := set_onmax (set_max_execution_steps new_thread 40) (Some (cancel_hook 4)) in
+  let r1 := d_run (d_start t prog) (repeat TRun 6) in
+  let r2 := d_run (fst r1) (TRun :: repeat TRun 20) in
+  hook_ok t /\
+  (exists c x, fst r1 = Running c /\ stk c = [FHost; FStar Head] /\ steps (th c) = 3 /\ maxSteps (th c) = 40 /\
+               d_host (st c) (perr c) = DCharge 1000 x) /\
+  setmax_le 40 (snd r2) = true /\ steps (sthread dstate (fst r1)) + dnheads (snd r2) + charged (snd r2) < two64 /\
+  charged (snd r2) = 1000 /\ dndisp (snd r2) = 0 /\ 40 - 1 - (3 + 1000) = 0 /\
+  (exists t' x, fst r2 = Finished t' x (Some (ECancel 4)) /\ steps t' = 1004 /\ cancel t' = Some 4).
+Proof.
+  cbv zeta. split; [intros [x|]; discriminate|]. split.
+  - eexists. eexists. vm_compute. repeat split.
+  - vm_compute. repeat split. eexists. eexists. repeat split.
+Qed.
+
+(* The limit can also be RAISED in mid-run (limit 5, b() at Steps = 4 installs 9,
+   endless loop): the run goes on past 5 and is stopped at 9 -- the limit in force
+   is the one most recently installed, in both directions. *)
+Example raised_in_mid_run :
+  dyn_run (set_max_execution_steps new_thread 5) [DPlain 3; DBuiltin [DOSetMax 9]; DLoop] 100
+  = Some (Some (ECancel too_many_steps), 9, 1).
+Proof. vm_compute. reflexivity. Qed.
+
+(* Wrap-around is explicit: a charge of 2^64 - 3 takes the counter from 6 back to 3,
+   and the run under limit 10 completes -- which is why parts (c) above assume that
+   heads + charges stay below 2^64. *)
+Example charge_wraps :
+  dyn_run (mkThread 5 10 None true None) [DBuiltin [DOCharge 18446744073709551613]; DPlain 3] 100
+  = Some (None, 7, 1).
+Proof. vm_compute. reflexivity. Qed.
+
+(* no_dyn holds for real runs (premise of dynamic_reduces_to_static), and the
+   arithmetic specification SpecDyn.spec_dyn agrees with the machine on the
+   harness's charge program (profile: 51 heads, b() at heads 2 7 21 31 41 48) *)
+Example no_dyn_and_spec_examples :
+  let pr := mkProf 51 [2; 7; 21; 31; 41; 48] EOk in
+  no_dyn (snd (d_run (d_start (set_max_execution_steps new_thread 30) (script_of pr (fun _ => []))) (repeat TRun 200))) = true /\
+  dyn_run (set_max_execution_steps new_thread 40) (script_of pr (plan1 1 [DOCharge 1000])) 300
+    = Some (Some (ECancel too_many_steps), 1003, 1) /\
+  spec_dyn too_many_steps 40 pr 1 (ACharge 1000) = Some (mkObs (RCancelled too_many_steps) 1003 1) /\
+  dyn_run new_thread (script_of pr (plan1 3 [DOSetMax 0])) 300 = Some (Some (ECancel too_many_steps), 22, 3) /\
+  spec_dyn too_many_steps 0 pr 3 (ASetMax 0) = Some (mkObs (RCancelled too_many_steps) 22 3).
+Proof. vm_compute. repeat split. Qed.
